@@ -183,6 +183,33 @@ mod verif_proofs {
         assert!(false);
     }
 
+    /// AT / ED announce a section: whatever is passed to the public flag setter (any of the six defined
+    /// flags, AT and ED included), the encoding carries those two bits exactly when the section is there
+    #[kani::proof]
+    #[kani::stub(crate::utils::crypto::sha256, sha256_any)]
+    #[kani::unwind(40)]
+    fn c12_section_bits_follow_sections() {
+        let mut extra = any_plain_flags();
+        let at: bool = kani::any();
+        let ed: bool = kani::any();
+        if at {
+            extra |= Flags::AT;
+        }
+        if ed {
+            extra |= Flags::ED;
+        }
+        let ad = AuthenticatorData::new("a", kani::any()).set_flags(extra);
+        let v = ad.to_vec();
+        assert!(v.len() == 37);
+        assert!(v[32] & 0x40 == 0, "AT set although no attested credential data was attached");
+        assert!(v[32] & 0x80 == 0, "ED set although no extension output was attached");
+        assert!(v[32] & 0x1D == (Flags::BE | Flags::BS | extra).bits() & 0x1D);
+        kani::cover!(at && ed);
+        kani::cover!(!at && !ed && extra.contains(Flags::UV));
+        core::mem::forget(v);
+        core::mem::forget(ad);
+    }
+
     /// set_flags ORs, set_attested_credential_data sets AT and stores the section
     #[kani::proof]
     #[kani::stub(crate::utils::crypto::sha256, sha256_any)]
